@@ -108,7 +108,13 @@ func driveMtA(rc *RunCtx) {
 			}
 			Bpt = crypto.ScalarBaseMult(ec, b)
 			if alter == "wrong-point" || alter == "unchecked-proof" {
-				Bpt = crypto.ScalarBaseMult(ec, new(big.Int).Add(b, big.NewInt(1)))
+				// another point than b*G ((b+1)*G; (b+2)*G when b+1 is the group order, whose multiple is the
+				// identity and cannot be represented)
+				wrong := new(big.Int).Add(b, big.NewInt(1))
+				if new(big.Int).Mod(wrong, q).Sign() == 0 {
+					wrong.Add(wrong, big.NewInt(1))
+				}
+				Bpt = crypto.ScalarBaseMult(ec, wrong)
 			}
 			var pfB *mta.ProofBobWC
 			bpt := crypto.ScalarBaseMult(ec, b)
